@@ -13,6 +13,7 @@ def cases(tier, seed):
     out = [dict(src=s, family="expressions") for s in gen.expr_cases(rnd, n)]
     out += [dict(src=s, family="arrays") for s in gen.array_cases(rnd, 300 if tier == "quick" else 5000)]
     out += [dict(src=s, family="strided-array-slices") for s in gen.strided_slice_cases()[:: (2 if tier == "quick" else 1)]]
+    out += [dict(src=s, family="array-element-arithmetic") for s in gen.array_arith_cases()]
     return out
 
 
